@@ -54,3 +54,7 @@ impl<T> BTreeSet<T> {
 }
 pub broadcast axiom fn axiom_btreemap_order_ok<K, V>(m: BTreeMap<K, V>) ensures #[trigger] m.order_ok();
 pub broadcast axiom fn axiom_btreeset_order_ok<T>(s: BTreeSet<T>) ensures #[trigger] s.order_ok();
+/// the iteration order of a BTreeMap is determined by its key set (ascending order of K): two maps over the same keys enumerate them alike
+pub axiom fn axiom_btreemap_key_order_dom<K, V, W>(a: &BTreeMap<K, V>, b: &BTreeMap<K, W>)
+    requires a.view().dom() =~= b.view().dom()
+    ensures a.key_order() == b.key_order();
